@@ -174,3 +174,49 @@ pub fn gen_big(rng: &mut Rng, which: usize) -> Wire {
                Wire::Arr(LenFmt::Fix, vec![Wire::Map(len_fmt(rng, n, true), l), Wire::Nil]) }
     }
 }
+
+/// Walk a VALID document and list its length fields: (offset of the field, width in bytes, value,
+/// bytes remaining after the field). Width 0 = the length lives in the marker byte itself.
+pub fn len_fields(b: &[u8]) -> Vec<(usize, usize, usize, usize)> {
+    fn walk(b: &[u8], p: &mut usize, out: &mut Vec<(usize, usize, usize, usize)>) -> Option<()> {
+        let m = *b.get(*p)?; let at = *p; *p += 1;
+        let be = |b: &[u8], p: &mut usize, k: usize| -> Option<usize> { let mut v = 0usize; for _ in 0..k { v = (v << 8) | *b.get(*p)? as usize; *p += 1; } Some(v) };
+        let mut field = |b: &[u8], p: &mut usize, k: usize, out: &mut Vec<(usize, usize, usize, usize)>| -> Option<usize> { let pos = *p; let v = be(b, p, k)?; out.push((pos, k, v, b.len() - *p)); Some(v) };
+        match m {
+            0x80..=0x8f => { out.push((at, 0, (m - 0x80) as usize, b.len() - *p)); for _ in 0..2 * (m - 0x80) as usize { walk(b, p, out)?; } }
+            0x90..=0x9f => { out.push((at, 0, (m - 0x90) as usize, b.len() - *p)); for _ in 0..(m - 0x90) as usize { walk(b, p, out)?; } }
+            0xa0..=0xbf => { out.push((at, 0, (m - 0xa0) as usize, b.len() - *p)); *p += (m - 0xa0) as usize; }
+            0xca | 0xce | 0xd2 => *p += 4, 0xcb | 0xcf | 0xd3 => *p += 8, 0xcc | 0xd0 => *p += 1, 0xcd | 0xd1 => *p += 2,
+            0xd9 => { let l = field(b, p, 1, out)?; *p += l } 0xda => { let l = field(b, p, 2, out)?; *p += l } 0xdb => { let l = field(b, p, 4, out)?; *p += l }
+            0xdc => { let l = field(b, p, 2, out)?; for _ in 0..l { walk(b, p, out)?; } } 0xdd => { let l = field(b, p, 4, out)?; for _ in 0..l { walk(b, p, out)?; } }
+            0xde => { let l = field(b, p, 2, out)?; for _ in 0..2 * l { walk(b, p, out)?; } } 0xdf => { let l = field(b, p, 4, out)?; for _ in 0..2 * l { walk(b, p, out)?; } }
+            _ => {}
+        }
+        Some(())
+    }
+    let mut out = vec![]; let mut p = 0; walk(b, &mut p, &mut out); out
+}
+
+/// One malformed variant of a valid document. Returns (class, bytes).
+pub fn mutate(rng: &mut Rng, valid: &[u8], other: &[u8]) -> (&'static str, Vec<u8>) {
+    let mut b = valid.to_vec();
+    match rng.below(9) {
+        0 => { let k = rng.below(b.len() as u64) as usize; b.truncate(k); ("truncated", b) }
+        1 => { if b.is_empty() { return ("truncated", b); } let k = rng.below(b.len() as u64) as usize; b[k] ^= 1 << rng.below(8); ("bitflip", b) }
+        2 => { if b.is_empty() { return ("truncated", b); } let k = rng.below(b.len() as u64) as usize; b[k] = rng.next_u64() as u8; ("byteset", b) }
+        3 | 4 => { // tamper a length field
+            let f = len_fields(&b); if f.is_empty() { b.push(0xc1); return ("marker", b); }
+            let (pos, w, v, rem) = *rng.pick(&f);
+            if w == 0 { let base = b[pos] & if b[pos] >= 0xa0 { 0xe0 } else { 0xf0 }; let max = if b[pos] >= 0xa0 { 31 } else { 15 };
+                let nv = *rng.pick(&[0usize, v.saturating_sub(1), v + 1, max, rem.min(max), (rem + 1).min(max)]); b[pos] = base | (nv.min(max) as u8); }
+            else { let maxw = if w >= 8 { usize::MAX } else { (1usize << (8 * w)) - 1 };
+                // lengths that would pre-allocate gigabytes are exercised by the `hugelen` class only
+                let nv = *rng.pick(&[0usize, v.saturating_sub(1), v + 1, rem, rem + 1, 65535, 1 << 20]); let nv = nv.min(maxw);
+                for i in 0..w { b[pos + i] = (nv >> (8 * (w - 1 - i))) as u8; } }
+            ("lentamper", b) }
+        5 => { let k = rng.below(b.len() as u64 + 1) as usize; let mut o = b[..k].to_vec(); let j = rng.below(other.len() as u64 + 1) as usize; o.extend(&other[j..]); ("splice", o) }
+        6 => { let k = rng.below(b.len() as u64 + 1) as usize; let m = *rng.pick(&[0xc1u8, 0xc4, 0xc5, 0xc6, 0xc7, 0xc8, 0xc9, 0xd4, 0xd5, 0xd6, 0xd7, 0xd8]); if k < b.len() { b[k] = m } else { b.push(m) } ("marker", b) }
+        7 => { b.extend(other); ("trailing", b) }
+        _ => { let n = rng.below(40) as usize; ("random", (0..n).map(|_| { let x = rng.next_u64(); if x % 3 == 0 { [0x92u8, 0x81, 0xa1, 0xd9, 0xdc, 0xde, 0xc0, 0x01, 0xcb][(x >> 8) as usize % 9] } else { (x >> 16) as u8 } }).collect()) }
+    }
+}
